@@ -10,7 +10,7 @@
    fairness is not modelled. *)
 From Coq Require Import NArith List.
 From stdpp Require Import gmap.
-From RV Require Import Out.OutSeq Out.Resume Out.ResumeProofs.
+From RV Require Import Out.OutSeq Out.Resume Out.ResumeProofs Out.ResumeCorollaries.
 Import ListNotations.
 Local Open Scope N_scope.
 
@@ -48,3 +48,25 @@ Theorem C04_stream_sorted : forall STR, wf_stream STR ->
   Sorted.StronglySorted (fun x y => lt2 (mid x) (mid y)) (flat STR).
 Proof. exact flat_sorted. Qed.
 Print Assumptions C04_stream_sorted.
+
+(* reader-facing corollaries of C04_exactly_once, at EVERY reachable point of every schedule
+   (not only at quiescence): strictly increasing ids, no id twice, nothing the session is not
+   entitled to and nothing at or below the resume point it started from *)
+Theorem C04_in_order : forall (STR : list (N * batch)) (sess : N), wf_stream STR ->
+  forall (ls0 : N * N) (st : rstate), reach STR sess ls0 st ->
+  Sorted.StronglySorted (fun x y => lt2 (mid x) (mid y)) (r_recv st).
+Proof. exact recv_in_order. Qed.
+Print Assumptions C04_in_order.
+
+Theorem C04_no_duplicates : forall (STR : list (N * batch)) (sess : N), wf_stream STR ->
+  forall (ls0 : N * N) (st : rstate), reach STR sess ls0 st ->
+  List.NoDup (List.map mid (r_recv st)).
+Proof. exact recv_no_duplicates. Qed.
+Print Assumptions C04_no_duplicates.
+
+Theorem C04_only_entitled : forall (STR : list (N * batch)) (sess : N), wf_stream STR ->
+  forall (ls0 : N * N) (st : rstate), reach STR sess ls0 st ->
+  forall m, List.In m (r_recv st) ->
+  List.In m (flat STR) /\ interesting sess m = true /\ lt2 ls0 (mid m) /\ le2 (mid m) (r_last st).
+Proof. exact recv_only_entitled. Qed.
+Print Assumptions C04_only_entitled.
